@@ -4,6 +4,7 @@ chunk-capturing wrapper around the real assembler.
 A program is a list of `Ln` records; `text` is what the assembler reads, the other fields say what
 the line *means* (independently of the assembler), so that oracles never re-parse text.
 """
+import re
 import importlib
 
 from harness import common, encsweep
@@ -280,10 +281,10 @@ def gen_program(rnd, size=None, pseudo=True, data=True, aligns=True, transfers=T
                     if ops and ops[0][0] == 'r':
                         ops = [('r', v)] + ops[1:]
                         txt = line_text(rnd, name, ops)
-                        parts = txt.split(None, 2)
-                        # replace the first operand by the constant's name
-                        first = parts[1].rstrip(',')
-                        txt = txt.replace(first, nm, 1)
+                        # replace the first operand by the constant's name (operands may be separated by a bare comma)
+                        head, rest = txt.strip().split(None, 1)
+                        first = re.split(r'[\s,]+', rest)[0]
+                        txt = '    ' + head + ' ' + nm + rest[len(first):]
                         body.append(Ln(txt, 'instr', name, ops))
             elif -2048 <= v <= 2047:
                 a, b = creg(rnd), creg(rnd)
